@@ -26,11 +26,15 @@ def gen_cases(run):
     # 2. random histories
     n_rand = 4000 if run.thorough else 400
     for _ in range(n_rand):
-        k = rng.choice([0, 1, 2, 3, 4, 5, 6, 7, 8, 9, 10, 11, 12])
+        k = rng.choice([0, 1, 2, 3, 4, 5, 6, 7, 8, 9, 10, 11, 12, 13, 14, 15, 16, 16, 17, 18, 20])
         c = 1 << k
         L = rng.randrange(1, 200 if run.thorough else 80)
-        # work on a small pool of residues so that classes collide often
-        pool = [rng.randrange(c) for _ in range(rng.randrange(1, 9))]
+        # work on a small pool of residues so that classes collide often; half of the pool are "relatives" of the first
+        # residue (one index bit flipped: half / quarter of the capacity apart, neighbouring words), the aliases a wrong mask or
+        # shift would produce
+        pool = [rng.randrange(c) for _ in range(rng.randrange(1, 6))]
+        for _ in range(rng.randrange(0, 5)):
+            if k > 0: pool.append(pool[0] ^ (1 << rng.randrange(0, k)))
         ops = []
         for _ in range(L):
             r = rng.choice(pool) if rng.random() < 0.8 else rng.randrange(c)
@@ -43,6 +47,7 @@ def gen_cases(run):
         # final sweep over a window of residues
         base = rng.choice(pool)
         ops += [(2, (base + d) % c) for d in range(min(c, 70))]
+        ops += [(2, r) for r in pool]
         cases.append(Case("bitmap", [c], ops, {"kind": "random"}))
     for cs in cases:
         dist["capacities"][cs.prefix[0]] = dist["capacities"].get(cs.prefix[0], 0) + 1
@@ -183,7 +188,7 @@ def main():
     found = d.finish()
     conc_dist = run_concurrent(run) if not run.violations else {}
     proof_failure_violation(run, found or run.violations)
-    run.cov["rule"] = ("capacity 2^k (k=0..12); histories of set/unset/is_set over a small pool of residues with lap offsets up to 2^63; "
+    run.cov["rule"] = ("capacity 2^k (k=0..20, 65536 twice as likely); histories of set/unset/is_set over a small pool of residues with lap offsets up to 2^63; "
                        "exhaustive: for each small capacity every residue a: set a, query all residues, unset a, query all. "
                        "Non-trivial = at least two mutating operations; distinct by (capacity, op list). CONCURRENT PHASE: 2-3 threads, each with its own residues inside shared words, "
                        "run on one BitMap under the deterministic scheduler of harness/ring (hooked build); oracles: every call is exactly one SeqCst fetch_or / fetch_and, and every residue ends as its owner's last call left it")
